@@ -492,6 +492,30 @@ class Extractor:
             self.rule('R4')
         return toks, body_hi
 
+    # ---- R13: `for &x in e { .. }` -> `for x_r in e { let x = *x_r; .. }`
+    def normalise_ref_patterns(self, toks):
+        """Verus' `for` accepts only an identifier pattern.  `for &x in e {B}` binds x to a copy of the referenced element
+        (the pattern requires Copy), which is exactly `for x_r in e { let x = *x_r; B }`."""
+        changed = True
+        while changed:
+            changed = False
+            for lp in find_loops(toks, 0, len(toks)):
+                if lp.kw != 'for': continue
+                a = rsx._skip_trivia(toks, lp.kw_idx + 1, lp.body_open)
+                if not (toks[a].kind == 'punct' and toks[a].text == '&'): continue
+                b = rsx._skip_trivia(toks, a + 1, lp.body_open)
+                c = rsx._skip_trivia(toks, b + 1, lp.body_open)
+                if not (toks[b].kind == 'ident' and toks[b].text != 'mut' and toks[c].kind == 'ident' and toks[c].text == 'in'):
+                    continue
+                x = toks[b].text
+                text = (rsx.text_of(toks, 0, a) + x + '_r' + rsx.text_of(toks, b + 1, lp.body_open + 1)
+                        + ' let %s = *%s_r;' % (x, x) + rsx.text_of(toks, lp.body_open + 1, len(toks)))
+                toks = tokenize(text)
+                self.rule('R13')
+                changed = True
+                break
+        return toks
+
     # ---- one function
     def process_fn(self, toks, item, module, container, fnspec, in_trait_impl=False, pub_container=False):
         """full splice; if a rewrite pattern / loop anchor of the spec no longer matches the source (the function
@@ -530,6 +554,7 @@ class Extractor:
         # ---------- R phase
         ftoks = self.expand_macros(ftoks) if self.macros else ftoks
         ftoks = self.apply_shims(ftoks)
+        ftoks = self.normalise_ref_patterns(ftoks)
         for rw in (fnspec or {}).get('rewrite', []):
             ftoks = self.apply_rewrite(ftoks, rw, path)
         for fd in sorted((fnspec or {}).get('find', []), key=lambda x: -x['n']):
